@@ -117,6 +117,8 @@ impl RdfStore {
             }
         }
 
+        #[cfg(grafeo_verif)]
+        grafeo_common::verif::sched_point("rdf.insert.after_check");
         // Insert into primary storage. The primary lock is held until the indexes are
         // updated, so an insert and a remove of the same triple cannot interleave and
         // leave the indexes disagreeing with the primary set.
